@@ -3,8 +3,9 @@
 Histories over {fit, update(update_params), predict, update_predict_single, update_predict} are run
 on real forecasters: the recording leaf doubles and recording NaiveForecaster leaves of props/c09.py
 (these are also run inside Coq through coq/C10/Model.v and compared call by call: returned
-forecasts, cutoff, remembered data `_y`, stored horizon, ValueError), PolynomialTrendForecaster,
-ExponentialSmoothing, ThetaForecaster and the composites (oracle only).  Next to every call the
+forecasts, cutoff, remembered data `_y`, stored horizon, ValueError), composites of them (run inside
+Coq through coq/C10/Comp.v over the C09 model: returned forecasts, own cutoff / data / horizon),
+PolynomialTrendForecaster, ExponentialSmoothing, ThetaForecaster (oracle only).  Next to every call the
 driver records, on deep copies / fresh instances of the REAL classes, the facts the oracle needs:
 the forecast of a fresh forecaster fitted on the union, the fitted parameters before/after, the
 forecasts of the corresponding sequence of single update+predict calls.
@@ -22,22 +23,38 @@ PER_CASE_TIMEOUT = 120
 RULE = ("random call histories of 1-6 calls after an initial fit, over {update(update_params T/F), "
         "predict(fh or None), update_predict_single, update_predict(cv = sliding / expanding window "
         "splitter with random window, step, start_with_window, or None), fit}; the data are random "
-        "time-ordered batchings of a series on consecutive integer times: consecutive batches and "
-        "batches overlapping the remembered data with different values; horizon given at fit in most "
+        "time-ordered batchings of a series on consecutive integer times: consecutive batches, "
+        "batches overlapping the remembered data with different values and (7% of the updates) empty "
+        "batches; horizon given at fit in most "
         "histories, in some only at the first predict, in some never before the first refitting "
         "update (known finding); forecasters: leaf double, NaiveForecaster(last/mean) [in Coq], "
-        "PolynomialTrendForecaster, ExponentialSmoothing, ThetaForecaster, ensemble / multiplexer / "
-        "pipeline / stacking composites [oracle only]. non-trivial = at least two calls succeeded "
+        "ensemble / multiplexer / pipeline / stacking composites of these [in Coq when the horizon is "
+        "given at fit], PolynomialTrendForecaster, ExponentialSmoothing, ThetaForecaster [oracle "
+        "only]. non-trivial = at least two calls succeeded "
         "and at least one carried data; distinct = distinct canonical JSON case")
 TRUSTED = [
+    "the translators translator/sktimebase_c10.py + translator/fcskel.py (fail closed) and the "
+    "instantiation of the abstract forecaster object of Site.v in coq/C10/Bridge.v: fields of fstate / "
+    "own data of a C09 state; what a concrete class provides: a leaf's fit = fit_state, its _predict = "
+    "the abstract kernel; a composite's update / _predict = C09's update / predict after handing the "
+    "horizon to its members",
     "the recording doubles of props/c09.py and the fact-collection code in props/c10.py run_impl "
     "(deep copies and fresh instances of the real classes)",
     "for update_predict the oracle takes the windows from the real splitter (property C01)",
 ]
 MODELLED = [
+    "REGENERATED on every run from base/_sktime.py over an abstract forecaster object and proved equal "
+    "to coq/C10/Model.v (leaf object) and coq/C10/Comp.v (composite objects of the C09 model) for all "
+    "arguments (C10/Bridge.v): _set_cutoff, _set_y_X, _update_y_X, the optional-horizon _set_fh, "
+    "update, predict, update_predict_single, _update_predict_single (base class and window-forecaster "
+    "override), _predict_moving_cutoff with _detached_cutoff inlined at the `with`, update_predict (base "
+    "class and window-forecaster override, incl. the defaults of SlidingWindowSplitter read from "
+    "_split.py); exogenous X specialised to None, return_pred_int to False",
     "the forecasting kernel of a leaf is abstract in the theorems (lfit/lpred); the Coq correspondence "
-    "covers the leaf double and NaiveForecaster(last/mean, sp=1); PolynomialTrendForecaster, "
-    "ExponentialSmoothing, ThetaForecaster and all composites are checked by the oracle only",
+    "covers the leaf double, NaiveForecaster(last/mean, sp=1) and (through coq/C10/Comp.v over the C09 "
+    "model) the ensemble / pipeline / multiplexer / stacking composites of them when the horizon is "
+    "given at fit and the history has no re-fit; PolynomialTrendForecaster, ExponentialSmoothing, "
+    "ThetaForecaster and the other composite histories are checked by the oracle only",
     "ThetaForecaster overrides update (does not refit): only its memory / cutoff / update_predict "
     "clauses are checked; pipelines and stacking do not refit their transformers / meta-regressor "
     "on update, so the refit-equals-fresh-fit clause is not applied to them",
@@ -451,6 +468,10 @@ def _gen_history(rng, spec, tier, fh_mode=None, max_ops=6, allow_fit=True, allow
             else:
                 start = end + 1
             up = rng.random() < 0.6
+            if rng.random() < 0.07:
+                # an empty batch: nothing is observed (memory and cutoff stay), but a refitting
+                # update still refits on everything remembered
+                start, ln = end + 1, 0
             ops.append(["update", start, c09._gen_values(rng, ln), up])
             end = max(end, start + ln - 1)
             if up and not have_fh:
